@@ -39,6 +39,8 @@ def main():
             self.bucket, self.msg = bucket, msg
 
     def oracle(case):
+        if 'pair' in case:
+            return pair_oracle(case)
         sec, micro, kind, off = case['sec'], case['micro'], case['kind'], case['off']
         v = make_input(sec, micro, kind, off)
         want = sec.to_bytes(8, 'big')
@@ -76,6 +78,23 @@ def main():
                            'expected UTC fields %r' % (label, d, fields))
         return got, out
 
+    def pair_oracle(case):
+        """two aware datetimes with the same wall time in the repeated DST hour (equal by
+        ==, one hour apart) encoded one after the other, bare and inside a table"""
+        year, minute, order = case['pair']
+        a, b = S.fold_pair(year, minute, case.get('micro', 0))
+        seq = [a, b] if order == 0 else [b, a]
+        got = None
+        for v in seq + seq:
+            want = canon.epoch_seconds(v).to_bytes(8, 'big')
+            got = encode.timestamp(v)
+            tab = encode.field_table({'t': v})
+            if got != want or want not in tab:
+                raise Fail('fold-pair', 'encode.timestamp(%r fold=%d) == %s after its '
+                           'equal-comparing twin, expected epoch second %d' %
+                           (v, v.fold, got.hex(), canon.epoch_seconds(v)))
+        return got, decode.timestamp(got)[1]
+
     def local_offset(sec):
         return time.localtime(sec).tm_gmtoff
 
@@ -96,7 +115,7 @@ def main():
 
     def record(case):
         res['evaluations'] += 1
-        off_now = local_offset(case['sec'])
+        off_now = local_offset(case['sec']) if 'sec' in case else -18000
         if off_now != 0:
             res['nontrivial'] += 1
             nt_digests.add(hashlib.blake2b(
@@ -133,14 +152,19 @@ def main():
             transitions.append(hi)
             prev = cur
         t += step
-    kinds = ['naive', 'utc', 'offset', 'struct_time', 'nulltz']
+    kinds = ['naive', 'utc', 'offset', 'struct_time', 'nulltz', 'ruletz']
     for i, tr in enumerate(transitions):
         for d in (-3601, -3600, -1, 0, 1, 3599, 3600, 3601):
             s = tr + d
             if 0 <= s <= 2**32 - 1:
                 res['dst_cases'] += 1
                 record({'tz': boot_tz, 'sec': s, 'micro': (i * 7919) % 1000000,
-                        'kind': kinds[(i + d) % 5], 'off': 330})
+                        'kind': kinds[(i + d) % 6], 'off': 330})
+    # ---- 1b. fold pairs: every year 1971..2105, both orders
+    for year in range(1971, 2106):
+        for order in (0, 1):
+            record({'tz': boot_tz, 'pair': [year, (year * 7) % 60, order],
+                    'micro': (year * 991) % 1000000})
     # ---- 2. fixed seed-derived instant list; digest must agree across all children
     h = hashlib.blake2b(digest_size=16)
     for i in range(2000 if tier == 'quick' else 20000):
@@ -148,7 +172,7 @@ def main():
         sec = int.from_bytes(raw[:5], 'big') % 2**32
         case = {'tz': boot_tz, 'sec': sec,
                 'micro': int.from_bytes(raw[5:], 'big') % 1000000,
-                'kind': kinds[i % 5], 'off': (i * 37) % 2879 - 1439}
+                'kind': kinds[i % 6], 'off': (i * 37) % 2879 - 1439}
         r = record(case)
         if r is not None:
             h.update(r[0])
